@@ -432,8 +432,7 @@ class CMapParser(PSStackParser[PSKeyword]):
                         )
                     for cid, unicode_value in zip(range(start, end + 1), code):
                         self.cmap.add_cid2unichr(cid, unicode_value)
-                else:
-                    assert isinstance(code, bytes)
+                elif isinstance(code, bytes):
                     var = code[-4:]
                     base = nunpack(var)
                     prefix = code[:-4]
@@ -441,6 +440,8 @@ class CMapParser(PSStackParser[PSKeyword]):
                     for i in range(end - start + 1):
                         x = prefix + struct.pack(">L", base + i)[-vlen:]
                         self.cmap.add_cid2unichr(start + i, x)
+                else:
+                    self._warn_once("The destination object is not a byte.")
             return
 
         if token is self.KEYWORD_BEGINBFCHAR:
